@@ -150,13 +150,27 @@ def _build(node, leaves):
         _, ints, reals, order, rank, wflat, sflat = node[:7]
         bshape = tuple(s for n, s in ints)
         D = sum(int(np.prod(sh)) if sh else 1 for n, sh in reals)
-        w = np.array(wflat, dtype=float).reshape(bshape + (rank,))
-        S = np.array(sflat, dtype=float).reshape(bshape + (D, rank))
-        if leaves.readonly:
-            w.flags.writeable = False
-            S.flags.writeable = False
-        for arr in (w, S):
-            leaves.arrays.append((arr, arr.tobytes(), arr.shape, arr.dtype, arr.strides))
+        hit = None
+        if leaves.shared is not None:
+            try:
+                hit = leaves.shared.get(("gauss-arrays", node))
+            except TypeError:
+                hit = None
+        if hit is not None:
+            w, S = hit  # equal Gaussian leaves are one pair of arrays, hence (hash-consing) one Gaussian object
+        else:
+            w = np.array(wflat, dtype=float).reshape(bshape + (rank,))
+            S = np.array(sflat, dtype=float).reshape(bshape + (D, rank))
+            if leaves.readonly:
+                w.flags.writeable = False
+                S.flags.writeable = False
+            for arr in (w, S):
+                leaves.arrays.append((arr, arr.tobytes(), arr.shape, arr.dtype, arr.strides))
+            if leaves.shared is not None:
+                try:
+                    leaves.shared[("gauss-arrays", node)] = (w, S)
+                except TypeError:
+                    pass
         doms = {n: Bint[s] for n, s in ints}
         doms.update({n: Reals[tuple(sh)] for n, sh in reals})
         # batch dims follow the order of the integer inputs, event dims that of the real inputs
